@@ -443,11 +443,12 @@ Proof.
     destruct H as [_ [_ [H _]]]. exact H.
 Qed.
 
-Theorem propagate_fixpoint : forall pick fuel ps s q s',
-  Forall good ps -> scoped ps (length s) -> wf_store s -> stable ps s q ->
+(* (the `scoped` premise of the published statement is not needed) *)
+Lemma propagate_fixpoint_gen : forall pick fuel ps s q s',
+  Forall good ps -> wf_store s -> stable ps s q ->
   propagate pick fuel ps s q = PDone s' -> stable ps s' [].
 Proof.
-  intros pick fuel ps s q s' Hg _ Hwf Hst Hp.
+  intros pick fuel ps s q s' Hg Hwf Hst Hp.
   assert (H : wf_store s' /\ stable ps s' []).
   { apply (propagate_invariant pick ps (fun t q0 => wf_store t /\ stable ps t q0))
       with (fuel := fuel) (s := s) (q := q); [|split; assumption|exact Hp].
@@ -484,6 +485,11 @@ Proof.
       eapply frame_stable; eassumption. }
   apply H.
 Qed.
+
+Theorem propagate_fixpoint : forall pick fuel ps s q s',
+  Forall good ps -> scoped ps (length s) -> wf_store s -> stable ps s q ->
+  propagate pick fuel ps s q = PDone s' -> stable ps s' [].
+Proof. intros pick fuel ps s q s' Hg _. apply propagate_fixpoint_gen. exact Hg. Qed.
 
 Lemma all_fixed_sget : forall s v, all_fixed s = true -> (v < length s)%nat -> dfixed (sget s v) = true.
 Proof.
@@ -538,3 +544,1216 @@ Proof.
         nia. }
   intros Hwf Hf. apply H; [exact Hwf|]. lia.
 Qed.
+
+(* ========================================================================================== *)
+(* 3. branching *)
+
+Lemma wf_unfixed_lt : forall d, wf_dom d -> dfixed d = false -> dmin d < dmax d.
+Proof.
+  intros d [Hne Hs] Hf. destruct d as [|x [|y r]]; [congruence|discriminate|].
+  assert (Hy : In y (x :: y :: r)) by (right; left; reflexivity).
+  pose proof (e_dmax_greatest _ _ Hs Hy). cbn [dmin hd]. destruct Hs as [Hxy _]. lia.
+Qed.
+
+Lemma dmid_bounds : forall d, wf_dom d -> dfixed d = false -> dmin d <= dmid d < dmax d.
+Proof.
+  intros d Hwf Hf. pose proof (wf_unfixed_lt d Hwf Hf) as Hlt.
+  unfold dmid. destruct Hwf as [Hne _]. destruct d as [|x r] eqn:Ed; [congruence|]. rewrite <- Ed in *.
+  assert (E1 : dempty d = false) by (rewrite Ed; reflexivity). rewrite E1.
+  destruct (Z.eqb_spec (dmin d) (dmax d)) as [E|_]; [lia|].
+  unfold tdiv. rewrite Z.quot_div_nonneg by lia.
+  pose proof (Z.div_mod (dmax d - dmin d) 2 ltac:(lia)) as Hdm.
+  pose proof (Z.mod_pos_bound (dmax d - dmin d) 2 ltac:(lia)) as Hmb.
+  lia.
+Qed.
+
+Theorem branch_partition : forall d, wf_dom d -> dfixed d = false ->
+  let m := dmid d in
+  dmin d <= m < dmax d /\
+  (forall x, In x d -> (x <= m \/ m < x)) /\ dabove m d <> [] /\ dbelow (m + 1) d <> [] /\
+  (length (dabove m d) < length d)%nat /\ (length (dbelow (m + 1) d) < length d)%nat.
+Proof.
+  intros d Hwf Hf m. pose proof (dmid_bounds d Hwf Hf) as Hb. fold m in Hb.
+  destruct Hwf as [Hne Hs].
+  pose proof (e_dmin_In d Hne) as Hmin. pose proof (e_dmax_In d Hne) as Hmax.
+  split; [exact Hb|]. split; [intros x _; lia|].
+  assert (A : In (dmin d) (dabove m d)).
+  { unfold dabove. apply filter_In. split; [exact Hmin|]. apply Z.leb_le. lia. }
+  assert (B : In (dmax d) (dbelow (m + 1) d)).
+  { unfold dbelow. apply filter_In. split; [exact Hmax|]. apply Z.leb_le. lia. }
+  split; [intros E; rewrite E in A; destruct A|].
+  split; [intros E; rewrite E in B; destruct B|].
+  split.
+  - unfold dabove. apply e_filter_length_lt with (x := dmax d); [exact Hmax|]. apply Z.leb_gt. lia.
+  - unfold dbelow. apply e_filter_length_lt with (x := dmin d); [exact Hmin|]. apply Z.leb_gt. lia.
+Qed.
+
+Theorem maximize_is_minimize_opp : forall pick obj ps s,
+  maximize pick obj ps s = minimize pick (VOpp obj) ps s /\ forall a, vsem (VOpp obj) a = - vsem obj a.
+Proof. intros. split; reflexivity. Qed.
+
+(* ========================================================================================== *)
+(* 4. the search engine *)
+
+Lemma first_unassigned_spec : forall s i p, first_unassigned s i = Some p ->
+  (i <= p)%nat /\ (p - i < length s)%nat /\ dfixed (sget s (p - i)) = false.
+Proof.
+  induction s as [|d r IH]; intros i p H; cbn in H; [discriminate|].
+  destruct (dfixed d) eqn:Ed.
+  - destruct (IH _ _ H) as [H1 [H2 H3]]. split; [lia|]. split; [cbn; lia|].
+    replace (p - i)%nat with (S (p - S i)) by lia. exact H3.
+  - injection H as <-. split; [lia|]. rewrite Nat.sub_diag. split; [cbn; lia|exact Ed].
+Qed.
+
+Lemma first_unassigned_none : forall s i, first_unassigned s i = None -> all_fixed s = true.
+Proof.
+  induction s as [|d r IH]; intros i H; [reflexivity|]. cbn in H. cbn.
+  destruct (dfixed d); [|discriminate]. apply (IH _ H).
+Qed.
+
+Lemma pivot_spec : forall s p, first_unassigned s 0 = Some p ->
+  (p < length s)%nat /\ dfixed (sget s p) = false.
+Proof. intros s p H. apply first_unassigned_spec in H. rewrite Nat.sub_0_r in H. tauto. Qed.
+
+Lemma all_fixed_wf : forall s, all_fixed s = true -> wf_store s.
+Proof.
+  intros s H v Hv. destruct (e_dfixed_single _ (all_fixed_sget s v H Hv)) as [x ->].
+  split; [discriminate|exact I].
+Qed.
+
+Lemma inst_asg_of : forall s, all_fixed s = true -> inst (asg_of s) s.
+Proof.
+  intros s H v Hv. unfold asg_of. destruct (e_dfixed_single _ (all_fixed_sget s v H Hv)) as [x ->].
+  left. reflexivity.
+Qed.
+
+(* an assignment inside a fully fixed store is the one the store denotes *)
+Lemma inst_fixed_eq : forall s a v, all_fixed s = true -> inst a s -> (v < length s)%nat -> a v = asg_of s v.
+Proof.
+  intros s a v H Hi Hv. specialize (Hi v Hv). unfold asg_of.
+  destruct (e_dfixed_single _ (all_fixed_sget s v H Hv)) as [x E]. rewrite E in *.
+  destruct Hi as [Hi|[]]. cbn. congruence.
+Qed.
+
+Lemma inst_sub : forall a s' s, inst a s' -> sub_store s' s -> inst a s.
+Proof. intros a s' s Hi [Hl Hs] v Hv. apply Hs. apply Hi. lia. Qed.
+
+(* two fully fixed stores of the same length containing the same assignment are equal *)
+Lemma fixed_store_unique : forall t t' a, all_fixed t = true -> all_fixed t' = true ->
+  length t = length t' -> inst a t -> inst a t' -> t = t'.
+Proof.
+  intros t t' a Ht Ht' Hl Hi Hi'. apply store_ext; [exact Hl|]. intros v.
+  destruct (lt_dec v (length t)) as [Hv|Hv].
+  - specialize (Hi v Hv). specialize (Hi' v ltac:(lia)).
+    destruct (e_dfixed_single _ (all_fixed_sget t v Ht Hv)) as [x E].
+    destruct (e_dfixed_single _ (all_fixed_sget t' v Ht' ltac:(lia))) as [x' E'].
+    rewrite E in *. rewrite E' in *. destruct Hi as [Hi|[]]. destruct Hi' as [Hi'|[]]. congruence.
+  - rewrite !sget_overflow by lia. reflexivity.
+Qed.
+
+(* the value of a view on a fully fixed store *)
+Lemma vbnd_fixed : forall s w mx, all_fixed s = true -> vbnd w mx s = vsem w (asg_of s).
+Proof.
+  intros s w. induction w as [v|c|w IH|w IH c|w IH k|w IH|w IH]; intros mx H; cbn [vbnd vsem];
+    try (rewrite IH by exact H; reflexivity); [|reflexivity].
+  unfold asg_of. destruct (lt_dec v (length s)) as [Hv|Hv].
+  - destruct (e_dfixed_single _ (all_fixed_sget s v H Hv)) as [x ->]. destruct mx; reflexivity.
+  - rewrite sget_overflow by lia. destruct mx; reflexivity.
+Qed.
+
+(* a view only reads its variable *)
+Lemma vsem_ext : forall w a1 a2, (forall x, uvar w = Some x -> a1 x = a2 x) -> vsem w a1 = vsem w a2.
+Proof.
+  induction w as [v|c|w IH|w IH c|w IH k|w IH|w IH]; intros a1 a2 H; cbn [vsem];
+    try (rewrite (IH a1 a2 H); reflexivity); [|reflexivity].
+  apply H. reflexivity.
+Qed.
+
+(* the propagators posted by the engine itself *)
+Lemma leq_trig : forall p c, trig (mk_leq (VVar p) (VConst c)) = [p].
+Proof. reflexivity. Qed.
+Lemma leq_sat : forall p c a, sat (mk_leq (VVar p) (VConst c)) a = (a p <=? c).
+Proof. reflexivity. Qed.
+Lemma gt_trig : forall p c, trig (mk_gt (VVar p) (VConst c)) = [p].
+Proof. reflexivity. Qed.
+Lemma gt_sat : forall p c a, sat (mk_gt (VVar p) (VConst c)) a = (c + 1 <=? a p).
+Proof. reflexivity. Qed.
+Lemma lt_trig : forall obj b, trig (mk_lt obj (VConst b)) = uvarl obj ++ [].
+Proof. reflexivity. Qed.
+Lemma lt_sat : forall obj b a, sat (mk_lt obj (VConst b)) a = (vsem obj a + 1 <=? b).
+Proof. reflexivity. Qed.
+
+Lemma leq_stable_bound : forall p c s,
+  prune (mk_leq (VVar p) (VConst c)) (s, []) = Some (s, []) -> dmax (sget s p) <= c.
+Proof.
+  intros p c s H. cbn [prune mk_leq] in H. unfold prune_leq, vset_max, vset_min, cmax, cmin, vmax, vmin in H.
+  cbn [vset vbnd fst] in H. unfold cset_max in H. cbn [fst snd] in H.
+  destruct (dempty (sget s p)); [discriminate|].
+  destruct (c <? dmin (sget s p)); [discriminate|].
+  destruct (Z.ltb_spec c (dmax (sget s p))) as [Hlt|Hge]; [|lia].
+  destruct (dempty (dabove c (sget s p))); [discriminate|]. cbn [obind fst] in H.
+  destruct (_ <=? c) in H; [|discriminate]. injection H as _ H. discriminate.
+Qed.
+
+Lemma gt_stable_bound : forall p c s,
+  prune (mk_gt (VVar p) (VConst c)) (s, []) = Some (s, []) -> c < dmin (sget s p).
+Proof.
+  intros p c s H. cbn [prune mk_gt mk_leq] in H. unfold prune_leq, vset_max, vset_min, cmax, cmin, vmax, vmin in H.
+  cbn [vset vbnd fst] in H.
+  destruct (c <=? dmax (sget s p) - 1); [|discriminate]. cbn [obind fst vbnd] in H.
+  unfold cset_min in H. cbn [fst snd] in H.
+  destruct (dempty (sget s p)); [discriminate|].
+  destruct (dmax (sget s p) <? c + 1); [discriminate|].
+  destruct (Z.ltb_spec (dmin (sget s p)) (c + 1)) as [Hlt|Hge]; [|lia].
+  destruct (dempty (dbelow (c + 1) (sget s p))); [discriminate|]. injection H as _ H. discriminate.
+Qed.
+
+(* the objective bookkeeping of Minimize *)
+Fixpoint dec_from (best : option Z) (l : list Z) : Prop :=
+  match l with
+  | [] => True
+  | x :: r => (forall b, best = Some b -> x < b) /\ dec_from (Some x) r
+  end.
+Definition last_best (best : option Z) (l : list Z) : option Z := fold_left (fun _ x => Some x) l best.
+
+Lemma dec_from_app : forall l1 l2 best,
+  dec_from best (l1 ++ l2) <-> dec_from best l1 /\ dec_from (last_best best l1) l2.
+Proof.
+  induction l1 as [|x l1 IH]; intros l2 best; cbn [app dec_from last_best fold_left].
+  - tauto.
+  - fold (last_best (Some x) l1). rewrite IH. tauto.
+Qed.
+
+Lemma last_best_app : forall l1 l2 best, last_best best (l1 ++ l2) = last_best (last_best best l1) l2.
+Proof. intros. unfold last_best. apply fold_left_app. Qed.
+
+Lemma last_best_le : forall l b, dec_from (Some b) l -> exists b', last_best (Some b) l = Some b' /\ b' <= b.
+Proof.
+  induction l as [|x l IH]; intros b H.
+  - exists b. split; [reflexivity|lia].
+  - destruct H as [H1 H2]. specialize (H1 b eq_refl). destruct (IH x H2) as [b' [E Hb]].
+    exists b'. split; [exact E|lia].
+Qed.
+
+Lemma dec_from_weaken : forall l best, dec_from best l -> dec_from None l.
+Proof. intros [|x l] best H; [exact I|]. destruct H as [_ H]. split; [intros b; discriminate|exact H]. Qed.
+
+Lemma dec_from_strict : forall l, dec_from None l -> strictly_decreasing l.
+Proof.
+  induction l as [|x l IH]; intros H; [exact I|]. destruct H as [_ H].
+  destruct l as [|y l]; [exact I|]. split; [destruct H as [H _]; apply H; reflexivity|].
+  apply IH. eapply dec_from_weaken; exact H.
+Qed.
+
+Lemma last_best_last : forall (A : Type) (f : A -> Z) (l : list A),
+  last_best None (map f l) = option_map f (last (map Some l) None).
+Proof.
+  intros A f l. assert (H : forall best0 (d : option A), best0 = option_map f d ->
+    last_best best0 (map f l) = option_map f (last (map Some l) d)).
+  { induction l as [|x l IH]; intros best0 d E; [exact E|].
+    cbn [map last_best fold_left]. fold (last_best (Some (f x)) (map f l)).
+    rewrite (IH (Some (f x)) (Some x) eq_refl).
+    destruct l as [|y l]; [reflexivity|]. cbn [map last].
+    clear. revert x y d. induction l as [|z l IH]; intros x y d; [reflexivity|].
+    cbn [map last] in *. apply IH. }
+  apply (H None None). reflexivity.
+Qed.
+
+Lemma e_NoDup_app : forall (A : Type) (l1 l2 : list A), NoDup l1 -> NoDup l2 ->
+  (forall x, In x l1 -> In x l2 -> False) -> NoDup (l1 ++ l2).
+Proof.
+  intros A. induction l1 as [|x l1 IH]; intros l2 H1 H2 Hd; [exact H2|].
+  inversion H1; subst. cbn. constructor.
+  - intros H. apply in_app_or in H. destruct H as [H|H]; [contradiction|]. apply (Hd x); [left; reflexivity|exact H].
+  - apply IH; [assumption|assumption|]. intros y Hy. apply Hd. right. exact Hy.
+Qed.
+
+Definition mode_vok (m : mode) : Prop := match m with Some obj => view_ok obj | None => True end.
+(* the objective's variable is a variable of the store *)
+Definition view_scoped (w : view) (n : nat) : Prop := forall x, uvar w = Some x -> (x < n)%nat.
+Definition mode_scoped (m : mode) (n : nat) : Prop :=
+  match m with Some obj => view_scoped obj n | None => True end.
+
+Definition node_ok (ps : list prop) (s : store) : Prop := Forall good ps /\ wf_store s /\ stable ps s [].
+
+Lemma good_contracting : forall ps, Forall good ps -> Forall contracting ps.
+Proof. intros ps. apply Forall_impl. intros p [H _]. exact H. Qed.
+Lemma good_sound : forall ps, Forall good ps -> Forall sound ps.
+Proof. intros ps. apply Forall_impl. intros p [_ [H _]]. exact H. Qed.
+
+Section Search.
+  Hypothesis leq_good : forall x y, view_ok x -> view_ok y -> good (mk_leq x y).
+  Hypothesis gt_good  : forall x y, view_ok x -> view_ok y -> good (mk_gt x y).
+  Hypothesis lt_good  : forall x y, view_ok x -> view_ok y -> good (mk_lt x y).
+
+  Section Engine.
+    Variable pick : sched.
+    Variable m : mode.
+
+    Definition cps (ps : list prop) (best : option Z) (bp : prop) : list prop :=
+      (ps ++ [bp]) ++ on_branch_props m best.
+    Definition cag (ps : list prop) (best : option Z) : list nat :=
+      agenda_with (seq (S (length ps)) (length (on_branch_props m best)) ++ [length ps]).
+    Definition cprop (ps : list prop) (s : store) (best : option Z) (bp : prop) : presult :=
+      propagate pick (prop_fuel (cps ps best bp) s (cag ps best)) (cps ps best bp) s (cag ps best).
+    Definition child (rec : list prop -> store -> option Z -> sresult)
+               (ps : list prop) (s : store) (best : option Z) (bp : prop) : sresult :=
+      match cprop ps s best bp with
+      | PFuel => SFuel
+      | PFail => SOk [] best
+      | PDone s' =>
+        if all_fixed s' then SOk [s'] (on_solution m best s') else rec (cps ps best bp) s' best
+      end.
+
+    Lemma dfs_eq : forall f ps s best,
+      dfs pick m (S f) ps s best =
+      match first_unassigned s 0 with
+      | None => SOk [] best
+      | Some pivot =>
+        let mid := dmid (sget s pivot) in
+        match child (dfs pick m f) ps s best (mk_leq (VVar pivot) (VConst mid)) with
+        | SFuel => SFuel
+        | SOk sols1 best1 =>
+          match child (dfs pick m f) ps s best1 (mk_gt (VVar pivot) (VConst mid)) with
+          | SFuel => SFuel
+          | SOk sols2 best2 => SOk (sols1 ++ sols2) best2
+          end
+        end
+      end.
+    Proof. reflexivity. Qed.
+
+    (* successful runs of the engine, as a relation *)
+    Inductive run : list prop -> store -> option Z -> list store -> option Z -> Prop :=
+    | run_node : forall ps s best pivot sols1 best1 sols2 best2,
+        first_unassigned s 0 = Some pivot ->
+        crun ps s best (mk_leq (VVar pivot) (VConst (dmid (sget s pivot)))) sols1 best1 ->
+        crun ps s best1 (mk_gt (VVar pivot) (VConst (dmid (sget s pivot)))) sols2 best2 ->
+        run ps s best (sols1 ++ sols2) best2
+    with crun : list prop -> store -> option Z -> prop -> list store -> option Z -> Prop :=
+    | crun_fail : forall ps s best bp,
+        cprop ps s best bp = PFail -> crun ps s best bp [] best
+    | crun_leaf : forall ps s best bp s',
+        cprop ps s best bp = PDone s' -> all_fixed s' = true ->
+        crun ps s best bp [s'] (on_solution m best s')
+    | crun_rec : forall ps s best bp s' sols best',
+        cprop ps s best bp = PDone s' -> all_fixed s' = false ->
+        run (cps ps best bp) s' best sols best' -> crun ps s best bp sols best'.
+
+    Scheme run_mind := Minimality for run Sort Prop
+      with crun_mind := Minimality for crun Sort Prop.
+    Combined Scheme run_crun_mind from run_mind, crun_mind.
+
+    Lemma dfs_run : forall fuel ps s best sols best',
+      dfs pick m fuel ps s best = SOk sols best' -> all_fixed s = false -> run ps s best sols best'.
+    Proof.
+      induction fuel as [|f IH]; intros ps s best sols best' H Hnf; [discriminate|].
+      rewrite dfs_eq in H.
+      destruct (first_unassigned s 0) as [pivot|] eqn:Ep;
+        [|apply first_unassigned_none in Ep; congruence].
+      assert (Hc : forall best bp sols best', child (dfs pick m f) ps s best bp = SOk sols best' ->
+                     crun ps s best bp sols best').
+      { clear H. intros b bp so b' H. unfold child in H.
+        destruct (cprop ps s b bp) as [| |s'] eqn:Ec; [|discriminate|].
+        - injection H as <- <-. apply crun_fail. exact Ec.
+        - destruct (all_fixed s') eqn:Ef.
+          + injection H as <- <-. apply crun_leaf; assumption.
+          + eapply crun_rec; [exact Ec|exact Ef|]. apply IH; assumption. }
+      cbv zeta in H.
+      destruct (child _ ps s best (mk_leq _ _)) as [|sols1 best1] eqn:E1; [discriminate|].
+      destruct (child _ ps s best1 (mk_gt _ _)) as [|sols2 best2] eqn:E2; [discriminate|].
+      injection H as <- <-. eapply run_node; [exact Ep|apply Hc; exact E1|apply Hc; exact E2].
+    Qed.
+
+    Hypothesis Hmok : mode_vok m.
+
+    Lemma bleq_good : forall p c, good (mk_leq (VVar p) (VConst c)).
+    Proof using leq_good. intros. apply leq_good; exact I. Qed.
+    Lemma bgt_good : forall p c, good (mk_gt (VVar p) (VConst c)).
+    Proof using gt_good. intros. apply gt_good; exact I. Qed.
+
+    Lemma mp_good : forall best, Forall good (on_branch_props m best).
+    Proof using lt_good Hmok.
+      intros best. unfold on_branch_props, mode_vok in *. destruct m as [obj|]; [|constructor].
+      destruct best as [b|]; [|constructor]. constructor; [|constructor].
+      apply lt_good; [exact Hmok|exact I].
+    Qed.
+
+    Lemma mp_none : on_branch_props m None = [].
+    Proof. unfold on_branch_props. destruct m; reflexivity. Qed.
+
+    Lemma cps_In : forall ps best bp p,
+      In p (cps ps best bp) <-> In p ps \/ p = bp \/ In p (on_branch_props m best).
+    Proof. intros. unfold cps. rewrite !in_app_iff. cbn. intuition. Qed.
+
+    Lemma cps_good : forall ps best bp, Forall good ps -> good bp -> Forall good (cps ps best bp).
+    Proof using lt_good Hmok.
+      intros ps best bp Hg Hbp. apply Forall_forall. intros p Hp. apply cps_In in Hp.
+      destruct Hp as [Hp|[->|Hp]]; [eapply Forall_forall; eassumption | exact Hbp |].
+      eapply Forall_forall; [apply mp_good|exact Hp].
+    Qed.
+
+    Lemma cps_length : forall ps best bp,
+      length (cps ps best bp) = S (length ps + length (on_branch_props m best)).
+    Proof. intros. unfold cps. rewrite !app_length. cbn. lia. Qed.
+
+    Lemma cps_nth_old : forall ps best bp i, (i < length ps)%nat ->
+      nth_error (cps ps best bp) i = nth_error ps i.
+    Proof.
+      intros. unfold cps. rewrite nth_error_app1 by (rewrite app_length; cbn; lia).
+      rewrite nth_error_app1 by lia. reflexivity.
+    Qed.
+
+    Lemma cps_nth_bp : forall ps best bp, nth_error (cps ps best bp) (length ps) = Some bp.
+    Proof.
+      intros. unfold cps. rewrite nth_error_app1 by (rewrite app_length; cbn; lia).
+      rewrite nth_error_app2 by lia. rewrite Nat.sub_diag. reflexivity.
+    Qed.
+
+    Lemma cag_In : forall ps best i, In i (cag ps best) <->
+      (length ps <= i < S (length ps + length (on_branch_props m best)))%nat.
+    Proof. intros. unfold cag. rewrite agenda_with_In, in_app_iff, in_seq. cbn. lia. Qed.
+
+    Lemma cag_lt : forall ps best bp i, In i (cag ps best) -> (i < length (cps ps best bp))%nat.
+    Proof. intros ps best bp i H. apply cag_In in H. rewrite cps_length. lia. Qed.
+
+    Lemma cps_stable : forall ps s best bp, stable ps s [] -> stable (cps ps best bp) s (cag ps best).
+    Proof.
+      intros ps s best bp Hst i p En Hn. destruct (lt_dec i (length ps)) as [Hi|Hi].
+      - rewrite cps_nth_old in En by exact Hi. apply (Hst i p En). intros [].
+      - exfalso. apply Hn. apply cag_In.
+        assert (H : (i < length (cps ps best bp))%nat) by (apply nth_error_Some; congruence).
+        rewrite cps_length in H. lia.
+    Qed.
+
+    Lemma child_facts : forall ps s best bp s', node_ok ps s -> good bp ->
+      cprop ps s best bp = PDone s' -> node_ok (cps ps best bp) s' /\ sub_store s' s.
+    Proof using lt_good Hmok.
+      intros ps s best bp s' [Hg [Hwf Hst]] Hbp Hp. unfold cprop in Hp.
+      pose proof (cps_good ps best bp Hg Hbp) as Hg2.
+      destruct (propagate_shrinks _ _ _ _ _ _ (good_contracting _ Hg2) Hwf Hp) as [Hs Hw].
+      split; [|exact Hs]. split; [exact Hg2|]. split; [exact Hw|].
+      eapply propagate_fixpoint_gen; [exact Hg2|exact Hwf|apply cps_stable; exact Hst|exact Hp].
+    Qed.
+
+    Lemma mp_scoped : forall best n, mode_scoped m n -> scoped (on_branch_props m best) n.
+    Proof.
+      intros best n H. unfold on_branch_props, mode_scoped, scoped in *. destruct m as [obj|]; [|constructor].
+      destruct best as [b|]; [|constructor]. constructor; [|constructor].
+      intros v Hv. rewrite lt_trig, app_nil_r in Hv. unfold uvarl in Hv.
+      destruct (uvar obj) as [x|] eqn:Eu; [|destruct Hv]. destruct Hv as [<-|[]]. apply H. exact Eu.
+    Qed.
+
+    Lemma cps_scoped : forall ps best bp n, scoped ps n -> in_scope bp n ->
+      scoped (on_branch_props m best) n -> scoped (cps ps best bp) n.
+    Proof.
+      intros ps best bp n H1 H2 H3. apply Forall_forall. intros p Hp. apply cps_In in Hp.
+      destruct Hp as [Hp|[->|Hp]]; [eapply Forall_forall in H1; eassumption | exact H2 |].
+      eapply Forall_forall in H3; eassumption.
+    Qed.
+
+    Lemma child_keeps : forall ps s best bp a, node_ok ps s -> good bp ->
+      scoped (cps ps best bp) (length s) -> sol (cps ps best bp) s a ->
+      cprop ps s best bp <> PFail /\ forall s', cprop ps s best bp = PDone s' -> inst a s'.
+    Proof using lt_good Hmok.
+      intros ps s best bp a [Hg [Hwf Hst]] Hbp Hsc Hsol. unfold cprop.
+      pose proof (cps_good ps best bp Hg Hbp) as Hg2.
+      apply propagate_keeps_solutions;
+        [apply good_contracting; exact Hg2 | apply good_sound; exact Hg2 | exact Hsc | exact Hwf | exact Hsol |].
+      intros i Hi. eapply cag_lt; exact Hi.
+    Qed.
+
+    Lemma leq_in_scope : forall p c n, (p < n)%nat -> in_scope (mk_leq (VVar p) (VConst c)) n.
+    Proof. intros p c n H v Hv. rewrite leq_trig in Hv. destruct Hv as [<-|[]]. exact H. Qed.
+    Lemma gt_in_scope : forall p c n, (p < n)%nat -> in_scope (mk_gt (VVar p) (VConst c)) n.
+    Proof. intros p c n H v Hv. rewrite gt_trig in Hv. destruct Hv as [<-|[]]. exact H. Qed.
+
+    (* ---- (S) every yielded store is a fully fixed sub-store satisfying every in-scope propagator *)
+    Definition sols_ok (ps : list prop) (s : store) (sols : list store) : Prop :=
+      forall t, In t sols -> all_fixed t = true /\ sub_store t s /\
+        forall p, In p ps -> in_scope p (length s) -> sat p (asg_of t) = true.
+
+    Lemma run_sound_both :
+      (forall ps s best sols best', run ps s best sols best' -> node_ok ps s -> sols_ok ps s sols) /\
+      (forall ps s best bp sols best', crun ps s best bp sols best' -> node_ok ps s -> good bp ->
+         sols_ok (cps ps best bp) s sols).
+    Proof using leq_good gt_good lt_good Hmok.
+      apply run_crun_mind.
+      - intros ps s best pivot sols1 best1 sols2 best2 Ep _ IH1 _ IH2 Hok t Ht.
+        apply in_app_or in Ht. destruct Ht as [Ht|Ht].
+        + destruct (IH1 Hok (bleq_good _ _) t Ht) as [A [B C]]. split; [exact A|]. split; [exact B|].
+          intros p Hp. apply C. apply cps_In. left; exact Hp.
+        + destruct (IH2 Hok (bgt_good _ _) t Ht) as [A [B C]]. split; [exact A|]. split; [exact B|].
+          intros p Hp. apply C. apply cps_In. left; exact Hp.
+      - intros ps s best bp _ _ _ t [].
+      - intros ps s best bp s' Hp Hf Hok Hbp t [<-|[]].
+        destruct (child_facts _ _ _ _ _ Hok Hbp Hp) as [[Hg2 [Hw2 Hst2]] Hsub].
+        split; [exact Hf|]. split; [exact Hsub|]. intros p Hp' Hsc.
+        destruct (In_nth_error _ _ Hp') as [i Ei].
+        apply fixed_checks_one with (s := s').
+        + eapply Forall_forall; eassumption.
+        + rewrite (sub_store_length _ _ Hsub). exact Hsc.
+        + exact Hw2.
+        + apply (Hst2 i p Ei). intros [].
+        + exact Hf.
+        + apply inst_asg_of; exact Hf.
+      - intros ps s best bp s' sols best' Hp Hnf _ IH Hok Hbp t Ht.
+        destruct (child_facts _ _ _ _ _ Hok Hbp Hp) as [Hok2 Hsub].
+        destruct (IH Hok2 t Ht) as [A [B C]]. split; [exact A|].
+        split; [eapply sub_store_trans; eassumption|]. intros p Hp' Hsc. apply C; [exact Hp'|].
+        rewrite (sub_store_length _ _ Hsub). exact Hsc.
+    Qed.
+
+    (* ---- no solution yielded: the mode state is unchanged *)
+    Lemma run_nil_both :
+      (forall ps s best sols best', run ps s best sols best' -> sols = [] -> best' = best) /\
+      (forall ps s best bp sols best', crun ps s best bp sols best' -> sols = [] -> best' = best).
+    Proof.
+      apply run_crun_mind.
+      - intros ps s best pivot sols1 best1 sols2 best2 _ _ IH1 _ IH2 E.
+        apply app_eq_nil in E. destruct E as [E1 E2]. rewrite (IH2 E2). apply IH1. exact E1.
+      - reflexivity.
+      - intros. discriminate.
+      - intros ps s best bp s' sols best' _ _ _ IH E. apply IH. exact E.
+    Qed.
+
+    (* ---- no store is yielded twice *)
+    Lemma run_nodup_both :
+      (forall ps s best sols best', run ps s best sols best' -> node_ok ps s -> NoDup sols) /\
+      (forall ps s best bp sols best', crun ps s best bp sols best' -> node_ok ps s -> good bp -> NoDup sols).
+    Proof using leq_good gt_good lt_good Hmok.
+      apply run_crun_mind.
+      - intros ps s best pivot sols1 best1 sols2 best2 Ep Hc1 IH1 Hc2 IH2 Hok.
+        destruct (pivot_spec _ _ Ep) as [Hpl _].
+        apply e_NoDup_app; [apply IH1; [exact Hok|apply bleq_good] | apply IH2; [exact Hok|apply bgt_good] |].
+        intros t H1 H2.
+        destruct (proj2 run_sound_both _ _ _ _ _ _ Hc1 Hok (bleq_good _ _) t H1) as [_ [_ C1]].
+        destruct (proj2 run_sound_both _ _ _ _ _ _ Hc2 Hok (bgt_good _ _) t H2) as [_ [_ C2]].
+        assert (S1 := C1 _ (proj2 (cps_In _ _ _ _) (or_intror (or_introl eq_refl))) (leq_in_scope _ _ _ Hpl)).
+        assert (S2 := C2 _ (proj2 (cps_In _ _ _ _) (or_intror (or_introl eq_refl))) (gt_in_scope _ _ _ Hpl)).
+        rewrite leq_sat in S1. rewrite gt_sat in S2. apply Z.leb_le in S1. apply Z.leb_le in S2. lia.
+      - intros. constructor.
+      - intros. constructor; [intros []|constructor].
+      - intros ps s best bp s' sols best' Hp Hnf _ IH Hok Hbp.
+        destruct (child_facts _ _ _ _ _ Hok Hbp Hp) as [Hok2 _]. apply IH. exact Hok2.
+    Qed.
+
+    (* ---- (D) Minimize: the yielded objective values strictly decrease below the incoming bound *)
+    Lemma lt_in_scope : forall obj b n, view_scoped obj n -> in_scope (mk_lt obj (VConst b)) n.
+    Proof.
+      intros obj b n H v Hv. rewrite lt_trig, app_nil_r in Hv. unfold uvarl in Hv.
+      destruct (uvar obj) as [x|] eqn:Eu; [|destruct Hv]. destruct Hv as [<-|[]]. apply H. exact Eu.
+    Qed.
+
+    Lemma run_dec_both : forall obj, m = Some obj ->
+      (forall ps s best sols best', run ps s best sols best' -> node_ok ps s ->
+         view_scoped obj (length s) ->
+         dec_from best (objs obj sols) /\ best' = last_best best (objs obj sols)) /\
+      (forall ps s best bp sols best', crun ps s best bp sols best' -> node_ok ps s -> good bp ->
+         view_scoped obj (length s) ->
+         dec_from best (objs obj sols) /\ best' = last_best best (objs obj sols)).
+    Proof using leq_good gt_good lt_good Hmok.
+      intros obj Hm. apply run_crun_mind.
+      - intros ps s best pivot sols1 best1 sols2 best2 Ep _ IH1 _ IH2 Hok Hsc.
+        destruct (IH1 Hok (bleq_good _ _) Hsc) as [D1 E1].
+        destruct (IH2 Hok (bgt_good _ _) Hsc) as [D2 E2].
+        unfold objs in *. rewrite map_app. split.
+        + apply dec_from_app. split; [exact D1|rewrite <- E1; exact D2].
+        + rewrite last_best_app, <- E1. exact E2.
+      - intros. split; [exact I|reflexivity].
+      - intros ps s best bp s' Hp Hf Hok Hbp Hsc.
+        destruct (child_facts _ _ _ _ _ Hok Hbp Hp) as [[Hg2 [Hw2 Hst2]] Hsub].
+        rewrite Hm. cbn [on_solution objs map dec_from last_best fold_left].
+        unfold vmin. rewrite (vbnd_fixed s' obj false Hf).
+        split; [|reflexivity]. split; [|exact I]. intros b Eb.
+        assert (Hin : In (mk_lt obj (VConst b)) (cps ps best bp)).
+        { apply cps_In. right. right. rewrite Eb, Hm. left. reflexivity. }
+        destruct (In_nth_error _ _ Hin) as [i Ei].
+        assert (Hs : sat (mk_lt obj (VConst b)) (asg_of s') = true).
+        { apply fixed_checks_one with (s := s').
+          - eapply Forall_forall; eassumption.
+          - apply lt_in_scope. rewrite (sub_store_length _ _ Hsub). exact Hsc.
+          - exact Hw2.
+          - apply (Hst2 i _ Ei). intros [].
+          - exact Hf.
+          - apply inst_asg_of; exact Hf. }
+        rewrite lt_sat in Hs. apply Z.leb_le in Hs. lia.
+      - intros ps s best bp s' sols best' Hp Hnf _ IH Hok Hbp Hsc.
+        destruct (child_facts _ _ _ _ _ Hok Hbp Hp) as [Hok2 Hsub]. apply IH; [exact Hok2|].
+        rewrite (sub_store_length _ _ Hsub). exact Hsc.
+    Qed.
+
+    (* an assignment is dominated when the incumbent is at least as good *)
+    Definition dominated (best : option Z) (a : asg) : Prop :=
+      match m, best with Some obj, Some b => b <= vsem obj a | _, _ => False end.
+
+    Lemma dominated_dec : forall best a, {dominated best a} + {~ dominated best a}.
+    Proof.
+      intros best a. unfold dominated. destruct m as [obj|]; [|right; tauto].
+      destruct best as [b|]; [apply Z_le_dec|right; tauto].
+    Qed.
+
+    Lemma dominated_none : forall a, ~ dominated None a.
+    Proof. intros a. unfold dominated. destruct m; tauto. Qed.
+
+    Lemma dominated_mono : forall best best' a,
+      (forall obj, m = Some obj -> exists l, dec_from best l /\ best' = last_best best l) ->
+      dominated best a -> dominated best' a.
+    Proof.
+      intros best best' a H. unfold dominated. destruct m as [obj|] eqn:Em; [|tauto].
+      destruct best as [b|]; [|tauto]. intros Hb. destruct (H obj eq_refl) as [l [D E]].
+      destruct (last_best_le _ _ D) as [b' [E' Hb']]. rewrite E, E'. lia.
+    Qed.
+
+    Lemma mode_view_scoped : forall obj n, m = Some obj -> mode_scoped m n -> view_scoped obj n.
+    Proof. intros obj n E H. unfold mode_scoped in H. rewrite E in H. exact H. Qed.
+
+    Lemma crun_mono : forall ps s best bp sols best' a, crun ps s best bp sols best' ->
+      node_ok ps s -> good bp -> mode_scoped m (length s) -> dominated best a -> dominated best' a.
+    Proof using leq_good gt_good lt_good Hmok.
+      intros ps s best bp sols best' a Hc Hok Hbp Hms. apply dominated_mono. intros obj Em.
+      exists (objs obj sols). apply (proj2 (run_dec_both obj Em) _ _ _ _ _ _ Hc Hok Hbp).
+      apply mode_view_scoped; assumption.
+    Qed.
+
+    Lemma mp_sat : forall best a p, ~ dominated best a -> In p (on_branch_props m best) -> sat p a = true.
+    Proof.
+      intros best a p. unfold dominated, on_branch_props. destruct m as [obj|]; [|intros _ []].
+      destruct best as [b|]; [|intros _ []]. intros Hnd [<-|[]]. rewrite lt_sat. apply Z.leb_le. lia.
+    Qed.
+
+    Lemma child_sol : forall ps s best bp a, sol ps s a -> sat bp a = true -> ~ dominated best a ->
+      sol (cps ps best bp) s a.
+    Proof.
+      intros ps s best bp a [Hi Hs] Hb Hnd. split; [exact Hi|]. intros p Hp. apply cps_In in Hp.
+      destruct Hp as [Hp|[->|Hp]]; [apply Hs; exact Hp|exact Hb|eapply mp_sat; eassumption].
+    Qed.
+
+    Lemma child_scoped : forall ps best bp n, scoped ps n -> in_scope bp n -> mode_scoped m n ->
+      scoped (cps ps best bp) n.
+    Proof. intros. apply cps_scoped; [assumption|assumption|apply mp_scoped; assumption]. Qed.
+
+    (* ---- (C) completeness up to domination by the incumbent *)
+    Lemma run_complete_both :
+      (forall ps s best sols best', run ps s best sols best' ->
+         node_ok ps s -> scoped ps (length s) -> mode_scoped m (length s) ->
+         forall a, sol ps s a -> ~ dominated best a ->
+           (exists t, In t sols /\ inst a t) \/ dominated best' a) /\
+      (forall ps s best bp sols best', crun ps s best bp sols best' ->
+         node_ok ps s -> scoped ps (length s) -> mode_scoped m (length s) ->
+         good bp -> in_scope bp (length s) ->
+         forall a, sol ps s a -> sat bp a = true -> ~ dominated best a ->
+           (exists t, In t sols /\ inst a t) \/ dominated best' a).
+    Proof using leq_good gt_good lt_good Hmok.
+      apply run_crun_mind.
+      - intros ps s best pivot sols1 best1 sols2 best2 Ep Hc1 IH1 Hc2 IH2 Hok Hsc Hms a Hsol Hnd.
+        destruct (pivot_spec _ _ Ep) as [Hpl _].
+        destruct (Z_le_dec (a pivot) (dmid (sget s pivot))) as [Hle|Hgt].
+        + destruct (IH1 Hok Hsc Hms (bleq_good _ _) (leq_in_scope _ _ _ Hpl) a Hsol) as [[t [Ht Hi]]|Hd].
+          * rewrite leq_sat. apply Z.leb_le. exact Hle.
+          * exact Hnd.
+          * left. exists t. split; [apply in_or_app; left; exact Ht|exact Hi].
+          * right. eapply crun_mono; [exact Hc2|exact Hok|apply bgt_good|exact Hms|exact Hd].
+        + destruct (dominated_dec best1 a) as [Hd|Hnd1].
+          * right. eapply crun_mono; [exact Hc2|exact Hok|apply bgt_good|exact Hms|exact Hd].
+          * destruct (IH2 Hok Hsc Hms (bgt_good _ _) (gt_in_scope _ _ _ Hpl) a Hsol) as [[t [Ht Hi]]|Hd].
+            -- rewrite gt_sat. apply Z.leb_le. lia.
+            -- exact Hnd1.
+            -- left. exists t. split; [apply in_or_app; right; exact Ht|exact Hi].
+            -- right. exact Hd.
+      - intros ps s best bp Hp Hok Hsc Hms Hbp Hbsc a Hsol Hsat Hnd. exfalso.
+        destruct (child_keeps ps s best bp a Hok Hbp) as [Hnf _];
+          [apply child_scoped; assumption | apply child_sol; assumption | exact (Hnf Hp)].
+      - intros ps s best bp s' Hp Hf Hok Hsc Hms Hbp Hbsc a Hsol Hsat Hnd. left.
+        exists s'. split; [left; reflexivity|].
+        destruct (child_keeps ps s best bp a Hok Hbp) as [_ Hk];
+          [apply child_scoped; assumption | apply child_sol; assumption | exact (Hk s' Hp)].
+      - intros ps s best bp s' sols best' Hp Hnf _ IH Hok Hsc Hms Hbp Hbsc a Hsol Hsat Hnd.
+        destruct (child_facts _ _ _ _ _ Hok Hbp Hp) as [Hok2 Hsub].
+        pose proof (sub_store_length _ _ Hsub) as Hl.
+        assert (Hsc2 : scoped (cps ps best bp) (length s)) by (apply child_scoped; assumption).
+        assert (Hsol2 : sol (cps ps best bp) s a) by (apply child_sol; assumption).
+        destruct (child_keeps ps s best bp a Hok Hbp Hsc2 Hsol2) as [_ Hk].
+        apply IH; [exact Hok2 | rewrite Hl; exact Hsc2 | rewrite Hl; exact Hms | | exact Hnd].
+        split; [exact (Hk s' Hp)|apply Hsol2].
+    Qed.
+
+    (* ---- nothing yielded from an empty incumbent: no solution (needs no scoping of the objective) *)
+    Lemma run_none_both :
+      (forall ps s best sols best', run ps s best sols best' ->
+         node_ok ps s -> scoped ps (length s) -> best = None -> sols = [] -> forall a, ~ sol ps s a) /\
+      (forall ps s best bp sols best', crun ps s best bp sols best' ->
+         node_ok ps s -> scoped ps (length s) -> good bp -> in_scope bp (length s) ->
+         best = None -> sols = [] -> forall a, sol ps s a -> sat bp a = true -> False).
+    Proof using leq_good gt_good lt_good Hmok.
+      assert (Hcs : forall ps bp n, scoped ps n -> in_scope bp n -> scoped (cps ps None bp) n).
+      { intros. apply cps_scoped; [assumption|assumption|rewrite mp_none; constructor]. }
+      assert (Hcsol : forall ps s bp a, sol ps s a -> sat bp a = true -> sol (cps ps None bp) s a).
+      { intros. apply child_sol; [assumption|assumption|apply dominated_none]. }
+      apply run_crun_mind.
+      - intros ps s best pivot sols1 best1 sols2 best2 Ep Hc1 IH1 Hc2 IH2 Hok Hsc Eb E a Hsol.
+        apply app_eq_nil in E. destruct E as [E1 E2].
+        destruct (pivot_spec _ _ Ep) as [Hpl _].
+        assert (Eb1 : best1 = None) by (rewrite (proj2 run_nil_both _ _ _ _ _ _ Hc1 E1); exact Eb).
+        destruct (Z_le_dec (a pivot) (dmid (sget s pivot))) as [Hle|Hgt].
+        + apply (IH1 Hok Hsc (bleq_good _ _) (leq_in_scope _ _ _ Hpl) Eb E1 a Hsol).
+          rewrite leq_sat. apply Z.leb_le. exact Hle.
+        + apply (IH2 Hok Hsc (bgt_good _ _) (gt_in_scope _ _ _ Hpl) Eb1 E2 a Hsol).
+          rewrite gt_sat. apply Z.leb_le. lia.
+      - intros ps s best bp Hp Hok Hsc Hbp Hbsc Eb _ a Hsol Hsat. subst best.
+        destruct (child_keeps ps s None bp a Hok Hbp) as [Hnf _];
+          [apply Hcs; assumption | apply Hcsol; assumption | exact (Hnf Hp)].
+      - intros. discriminate.
+      - intros ps s best bp s' sols best' Hp Hnf _ IH Hok Hsc Hbp Hbsc Eb E a Hsol Hsat. subst best.
+        destruct (child_facts _ _ _ _ _ Hok Hbp Hp) as [Hok2 Hsub].
+        pose proof (sub_store_length _ _ Hsub) as Hl.
+        assert (Hsc2 : scoped (cps ps None bp) (length s)) by (apply Hcs; assumption).
+        assert (Hsol2 : sol (cps ps None bp) s a) by (apply Hcsol; assumption).
+        destruct (child_keeps ps s None bp a Hok Hbp Hsc2 Hsol2) as [_ Hk].
+        apply (IH Hok2 ltac:(rewrite Hl; exact Hsc2) eq_refl E a).
+        split; [exact (Hk s' Hp)|apply Hsol2].
+    Qed.
+
+    (* ---- termination: each child strictly shrinks the pivot's domain *)
+    Lemma branch_shrinks : forall ps s best bp pivot s', node_ok ps s ->
+      first_unassigned s 0 = Some pivot ->
+      (bp = mk_leq (VVar pivot) (VConst (dmid (sget s pivot))) \/
+       bp = mk_gt (VVar pivot) (VConst (dmid (sget s pivot)))) ->
+      cprop ps s best bp = PDone s' -> (total_size s' < total_size s)%nat.
+    Proof using leq_good gt_good lt_good Hmok.
+      intros ps s best bp pivot s' Hok Ep Hbp Hp.
+      destruct (pivot_spec _ _ Ep) as [Hpl Hnf].
+      assert (Hgb : good bp) by (destruct Hbp as [->| ->]; [apply bleq_good|apply bgt_good]).
+      destruct (child_facts _ _ _ _ _ Hok Hgb Hp) as [[_ [Hw2 Hst2]] Hsub].
+      assert (Hstb : prune bp (s', []) = Some (s', [])).
+      { apply (Hst2 _ _ (cps_nth_bp ps best bp)). intros []. }
+      destruct Hok as [_ [Hwf _]]. pose proof (Hwf pivot Hpl) as Hwd.
+      destruct (dmid_bounds _ Hwd Hnf) as [Hlo Hhi].
+      assert (Hwd' : wf_dom (sget s' pivot)).
+      { apply Hw2. rewrite (sub_store_length _ _ Hsub). exact Hpl. }
+      destruct Hbp as [-> | ->].
+      - apply leq_stable_bound in Hstb.
+        apply sub_store_shrinks with (p := pivot) (x := dmax (sget s pivot));
+          [exact Hsub|exact Hw2|exact Hpl|apply e_dmax_In; apply Hwd|].
+        intros Hin. pose proof (e_dmax_greatest _ _ (proj2 Hwd') Hin). lia.
+      - apply gt_stable_bound in Hstb.
+        apply sub_store_shrinks with (p := pivot) (x := dmin (sget s pivot));
+          [exact Hsub|exact Hw2|exact Hpl|apply e_dmin_In; apply Hwd|].
+        intros Hin. pose proof (e_dmin_least _ _ (proj2 Hwd') Hin). lia.
+    Qed.
+
+    Lemma child_terminates : forall rec ps s best bp pivot f, node_ok ps s ->
+      first_unassigned s 0 = Some pivot ->
+      (bp = mk_leq (VVar pivot) (VConst (dmid (sget s pivot))) \/
+       bp = mk_gt (VVar pivot) (VConst (dmid (sget s pivot)))) ->
+      (total_size s <= f)%nat ->
+      (forall ps' s' best', node_ok ps' s' -> (S (total_size s') <= f)%nat -> rec ps' s' best' <> SFuel) ->
+      child rec ps s best bp <> SFuel.
+    Proof using leq_good gt_good lt_good Hmok.
+      intros rec ps s best bp pivot f Hok Ep Hbp Hf Hrec. unfold child.
+      assert (Hgb : good bp) by (destruct Hbp as [->| ->]; [apply bleq_good|apply bgt_good]).
+      destruct (cprop ps s best bp) as [| |s'] eqn:Ec.
+      - discriminate.
+      - exfalso. unfold cprop in Ec. revert Ec. apply propagate_terminates; [|apply Hok|apply le_n].
+        apply good_contracting. apply cps_good; [apply Hok|exact Hgb].
+      - destruct (all_fixed s'); [discriminate|]. apply Hrec.
+        + apply (child_facts _ _ _ _ _ Hok Hgb Ec).
+        + pose proof (branch_shrinks _ _ _ _ _ _ Hok Ep Hbp Ec). lia.
+    Qed.
+
+    Lemma dfs_terminates : forall fuel ps s best, node_ok ps s -> (S (total_size s) <= fuel)%nat ->
+      dfs pick m fuel ps s best <> SFuel.
+    Proof using leq_good gt_good lt_good Hmok.
+      induction fuel as [|f IH]; intros ps s best Hok Hf; [lia|].
+      rewrite dfs_eq. destruct (first_unassigned s 0) as [pivot|] eqn:Ep; [|discriminate]. cbv zeta.
+      assert (Hrec : forall ps' s' best', node_ok ps' s' -> (S (total_size s') <= f)%nat ->
+                       dfs pick m f ps' s' best' <> SFuel) by (intros; apply IH; assumption).
+      pose proof (child_terminates (dfs pick m f) ps s best _ pivot f Hok Ep (or_introl eq_refl) ltac:(lia) Hrec) as H1.
+      destruct (child (dfs pick m f) ps s best _) as [|sols1 best1]; [congruence|].
+      pose proof (child_terminates (dfs pick m f) ps s best1 _ pivot f Hok Ep (or_intror eq_refl) ltac:(lia) Hrec) as H2.
+      destruct (child (dfs pick m f) ps s best1 _) as [|sols2 best2]; [congruence|discriminate].
+    Qed.
+
+    (* ---- the root: initial propagation of every propagator *)
+    Definition root (ps : list prop) (s : store) : presult :=
+      propagate pick (prop_fuel ps s (agenda_with (seq 0 (length ps)))) ps s (agenda_with (seq 0 (length ps))).
+
+    Lemma search_eq : forall ps s,
+      search pick m ps s =
+      match root ps s with
+      | PFuel => SFuel
+      | PFail => SOk [] None
+      | PDone s' =>
+        if all_fixed s' then SOk [s'] (on_solution m None s')
+        else dfs pick m (S (total_size s')) ps s' None
+      end.
+    Proof. reflexivity. Qed.
+
+    Lemma root_facts : forall ps s s', Forall good ps -> wf_store s -> root ps s = PDone s' ->
+      node_ok ps s' /\ sub_store s' s.
+    Proof.
+      intros ps s s' Hg Hwf Hp. unfold root in Hp.
+      destruct (propagate_shrinks _ _ _ _ _ _ (good_contracting _ Hg) Hwf Hp) as [Hs Hw].
+      split; [|exact Hs]. split; [exact Hg|]. split; [exact Hw|].
+      eapply propagate_fixpoint_gen; [exact Hg|exact Hwf| |exact Hp].
+      intros i p En Hn. exfalso. apply Hn. apply agenda_with_In, in_seq.
+      assert ((i < length ps)%nat) by (apply nth_error_Some; congruence). lia.
+    Qed.
+
+    Lemma root_keeps : forall ps s a, Forall good ps -> scoped ps (length s) -> wf_store s -> sol ps s a ->
+      root ps s <> PFail /\ forall s', root ps s = PDone s' -> inst a s'.
+    Proof.
+      intros ps s a Hg Hsc Hwf Hsol. unfold root.
+      apply propagate_keeps_solutions;
+        [apply good_contracting; exact Hg | apply good_sound; exact Hg | exact Hsc | exact Hwf | exact Hsol |].
+      intros i Hi. apply agenda_with_In, in_seq in Hi. lia.
+    Qed.
+
+    Lemma root_terminates : forall ps s, Forall good ps -> wf_store s -> root ps s <> PFuel.
+    Proof.
+      intros ps s Hg Hwf. unfold root. apply propagate_terminates; [apply good_contracting; exact Hg|exact Hwf|apply le_n].
+    Qed.
+
+    (* the shape of a successful search *)
+    Lemma search_cases : forall ps s sols best, Forall good ps -> wf_store s ->
+      search pick m ps s = SOk sols best ->
+      (root ps s = PFail /\ sols = [] /\ best = None) \/
+      exists s', root ps s = PDone s' /\ node_ok ps s' /\ sub_store s' s /\
+        ((all_fixed s' = true /\ sols = [s'] /\ best = on_solution m None s') \/
+         (all_fixed s' = false /\ run ps s' None sols best)).
+    Proof.
+      intros ps s sols best Hg Hwf H. rewrite search_eq in H.
+      destruct (root ps s) as [| |s'] eqn:Er; [|discriminate|].
+      - injection H as <- <-. left. auto.
+      - right. exists s'. destruct (root_facts _ _ _ Hg Hwf Er) as [Hok Hsub].
+        split; [reflexivity|]. split; [exact Hok|]. split; [exact Hsub|].
+        destruct (all_fixed s') eqn:Ef.
+        + injection H as <- <-. left. auto.
+        + right. split; [reflexivity|]. eapply dfs_run; eassumption.
+    Qed.
+
+    Lemma leaf_ok : forall ps s, node_ok ps s -> all_fixed s = true -> sols_ok ps s [s].
+    Proof.
+      intros ps s [Hg [Hw Hst]] Hf t [<-|[]]. split; [exact Hf|]. split; [apply sub_store_refl|].
+      intros p Hp Hsc. destruct (In_nth_error _ _ Hp) as [i Ei].
+      apply fixed_checks_one with (s := s); [eapply Forall_forall; eassumption|exact Hsc|exact Hw| |exact Hf|apply inst_asg_of; exact Hf].
+      apply (Hst i p Ei). intros [].
+    Qed.
+
+    Lemma search_sols_ok : forall ps s sols best, Forall good ps -> wf_store s ->
+      search pick m ps s = SOk sols best ->
+      exists s', sub_store s' s /\ sols_ok ps s' sols.
+    Proof using leq_good gt_good lt_good Hmok.
+      intros ps s sols best Hg Hwf H.
+      destruct (search_cases _ _ _ _ Hg Hwf H) as [[_ [-> _]]|[s' [_ [Hok [Hsub [[Hf [-> _]]|[Hnf Hr]]]]]]].
+      - exists s. split; [apply sub_store_refl|intros t []].
+      - exists s'. split; [exact Hsub|apply leaf_ok; assumption].
+      - exists s'. split; [exact Hsub|]. apply (proj1 run_sound_both _ _ _ _ _ Hr Hok).
+    Qed.
+
+    Lemma search_sound : forall ps s sols best, Forall good ps -> scoped ps (length s) -> wf_store s ->
+      search pick m ps s = SOk sols best ->
+      forall t, In t sols -> all_fixed t = true /\ sub_store t s /\ sol ps s (asg_of t).
+    Proof using leq_good gt_good lt_good Hmok.
+      intros ps s sols best Hg Hsc Hwf H t Ht.
+      destruct (search_sols_ok _ _ _ _ Hg Hwf H) as [s' [Hsub Hok]].
+      destruct (Hok t Ht) as [A [B C]].
+      assert (Hts : sub_store t s) by (eapply sub_store_trans; eassumption).
+      split; [exact A|]. split; [exact Hts|]. split.
+      - eapply inst_sub; [apply inst_asg_of; exact A|exact Hts].
+      - intros p Hp. apply C; [exact Hp|]. rewrite (sub_store_length _ _ Hsub).
+        eapply Forall_forall in Hsc; eassumption.
+    Qed.
+
+    Lemma search_nodup : forall ps s sols best, Forall good ps -> wf_store s ->
+      search pick m ps s = SOk sols best -> NoDup sols.
+    Proof using leq_good gt_good lt_good Hmok.
+      intros ps s sols best Hg Hwf H.
+      destruct (search_cases _ _ _ _ Hg Hwf H) as [[_ [-> _]]|[s' [_ [Hok [Hsub [[Hf [-> _]]|[Hnf Hr]]]]]]].
+      - constructor.
+      - constructor; [intros []|constructor].
+      - apply (proj1 run_nodup_both _ _ _ _ _ Hr Hok).
+    Qed.
+
+    Lemma search_none : forall ps s best, Forall good ps -> scoped ps (length s) -> wf_store s ->
+      search pick m ps s = SOk [] best -> forall a, ~ sol ps s a.
+    Proof using leq_good gt_good lt_good Hmok.
+      intros ps s best Hg Hsc Hwf H a Hsol.
+      destruct (root_keeps ps s a Hg Hsc Hwf Hsol) as [Hnf Hk].
+      destruct (search_cases _ _ _ _ Hg Hwf H) as [[Hr _]|[s' [Er [Hok [Hsub [[Hf [E _]]|[Hnf' Hr]]]]]]].
+      - exact (Hnf Hr).
+      - discriminate.
+      - apply (proj1 run_none_both _ _ _ _ _ Hr Hok) with (a := a); [|reflexivity|reflexivity|].
+        + rewrite (sub_store_length _ _ Hsub). exact Hsc.
+        + split; [exact (Hk s' Er)|apply Hsol].
+    Qed.
+
+    Lemma search_complete : forall ps s sols best, Forall good ps -> scoped ps (length s) -> wf_store s ->
+      mode_scoped m (length s) -> search pick m ps s = SOk sols best ->
+      forall a, sol ps s a -> (exists t, In t sols /\ inst a t) \/ dominated best a.
+    Proof using leq_good gt_good lt_good Hmok.
+      intros ps s sols best Hg Hsc Hwf Hms H a Hsol.
+      destruct (root_keeps ps s a Hg Hsc Hwf Hsol) as [Hnf Hk].
+      destruct (search_cases _ _ _ _ Hg Hwf H) as [[Hr _]|[s' [Er [Hok [Hsub [[Hf [-> _]]|[Hnf' Hr]]]]]]].
+      - destruct (Hnf Hr).
+      - left. exists s'. split; [left; reflexivity|exact (Hk s' Er)].
+      - pose proof (sub_store_length _ _ Hsub) as Hl.
+        apply (proj1 run_complete_both _ _ _ _ _ Hr Hok); [rewrite Hl; exact Hsc|rewrite Hl; exact Hms| |apply dominated_none].
+        split; [exact (Hk s' Er)|apply Hsol].
+    Qed.
+
+    Lemma search_dec : forall obj ps s sols best, m = Some obj -> Forall good ps -> wf_store s ->
+      view_scoped obj (length s) -> search pick m ps s = SOk sols best ->
+      dec_from None (objs obj sols) /\ best = last_best None (objs obj sols).
+    Proof using leq_good gt_good lt_good Hmok.
+      intros obj ps s sols best Hm Hg Hwf Hvs H.
+      destruct (search_cases _ _ _ _ Hg Hwf H) as [[_ [-> ->]]|[s' [_ [Hok [Hsub [[Hf [-> ->]]|[Hnf Hr]]]]]]].
+      - split; [exact I|reflexivity].
+      - rewrite Hm. cbn [on_solution objs map dec_from last_best fold_left].
+        unfold vmin. rewrite (vbnd_fixed s' obj false Hf). split; [|reflexivity].
+        split; [intros b; discriminate|exact I].
+      - apply (proj1 (run_dec_both obj Hm) _ _ _ _ _ Hr Hok). rewrite (sub_store_length _ _ Hsub). exact Hvs.
+    Qed.
+
+    Lemma search_terminates : forall ps s, Forall good ps -> wf_store s -> search pick m ps s <> SFuel.
+    Proof using leq_good gt_good lt_good Hmok.
+      intros ps s Hg Hwf. rewrite search_eq.
+      pose proof (root_terminates ps s Hg Hwf) as Ht.
+      destruct (root ps s) as [| |s'] eqn:Er; [discriminate|congruence|].
+      destruct (all_fixed s'); [discriminate|].
+      apply dfs_terminates; [|apply le_n]. apply (root_facts _ _ _ Hg Hwf Er).
+    Qed.
+  End Engine.
+
+  (* ======================================================================================== *)
+  (* 5. the published theorems *)
+
+  Lemma last_some_In : forall (A : Type) (l : list A) t, last (map Some l) None = Some t -> In t l.
+  Proof.
+    intros A. induction l as [|x l IH]; intros t H; [discriminate|].
+    destruct l as [|y l]; [cbn in H; injection H as <-; left; reflexivity|].
+    right. apply IH. exact H.
+  Qed.
+
+  Lemma last_none_nil : forall (A : Type) (l : list A), last (map Some l) None = None -> l = [].
+  Proof.
+    intros A. induction l as [|x l IH]; intros H; [reflexivity|].
+    destruct l as [|y l]; [discriminate|]. specialize (IH H). discriminate.
+  Qed.
+
+  Lemma dec_last_le : forall l best x, dec_from best l -> In x l ->
+    exists b', last_best best l = Some b' /\ b' <= x.
+  Proof.
+    induction l as [|x0 l IH]; intros best x H Hin; [destruct Hin|].
+    destruct H as [_ H]. cbn [last_best fold_left]. fold (last_best (Some x0) l).
+    destruct Hin as [<-|Hin]; [apply last_best_le; exact H|apply IH; assumption].
+  Qed.
+
+  (* ---- C03 *)
+  Theorem enumerate_exact : forall pick ps s sols best,
+    Forall good ps -> scoped ps (length s) -> wf_store s ->
+    enumerate pick ps s = SOk sols best ->
+    NoDup sols /\
+    (forall t, In t sols -> all_fixed t = true /\ sub_store t s /\ sol ps s (asg_of t)) /\
+    (forall a, sol ps s a -> exists t, In t sols /\ inst a t).
+  Proof using leq_good gt_good lt_good.
+    intros pick ps s sols best Hg Hsc Hwf H. unfold enumerate in H. split; [|split].
+    - eapply (search_nodup pick None I); eassumption.
+    - eapply (search_sound pick None I); eassumption.
+    - intros a Ha. destruct (search_complete pick None I ps s sols best Hg Hsc Hwf I H a Ha) as [Hx|[]].
+      exact Hx.
+  Qed.
+
+  Lemma enum_unique : forall pick ps s sols best t, Forall good ps -> scoped ps (length s) -> wf_store s ->
+    enumerate pick ps s = SOk sols best ->
+    all_fixed t = true -> length t = length s -> sol ps s (asg_of t) -> In t sols.
+  Proof using leq_good gt_good lt_good.
+    intros pick ps s sols best t Hg Hsc Hwf H Hf Hl Hsol.
+    destruct (enumerate_exact _ _ _ _ _ Hg Hsc Hwf H) as [_ [Hs Hc]].
+    destruct (Hc _ Hsol) as [t' [Ht' Hi]]. destruct (Hs t' Ht') as [Hf' [Hsub' _]].
+    replace t with t'; [exact Ht'|]. symmetry.
+    apply (fixed_store_unique t t' (asg_of t)); [exact Hf|exact Hf'| |apply inst_asg_of; exact Hf|exact Hi].
+    rewrite (sub_store_length _ _ Hsub'). exact Hl.
+  Qed.
+
+  Theorem enumerate_count : forall pick ps s sols best (l : list store),
+    Forall good ps -> scoped ps (length s) -> wf_store s ->
+    enumerate pick ps s = SOk sols best ->
+    NoDup l -> (forall t, In t l <-> (all_fixed t = true /\ length t = length s /\ sol ps s (asg_of t))) ->
+    length sols = length l.
+  Proof using leq_good gt_good lt_good.
+    intros pick ps s sols best l Hg Hsc Hwf H Hnd Hl.
+    destruct (enumerate_exact _ _ _ _ _ Hg Hsc Hwf H) as [Hnd' [Hs Hc]].
+    apply Nat.le_antisymm; apply NoDup_incl_length; try assumption.
+    - intros t Ht. apply Hl. destruct (Hs t Ht) as [A [B C]]. split; [exact A|].
+      split; [apply (sub_store_length _ _ B)|exact C].
+    - intros t Ht. apply Hl in Ht. destruct Ht as [A [B C]]. eapply enum_unique; eassumption.
+  Qed.
+
+  Theorem enumerate_terminates : forall pick ps s,
+    Forall good ps -> scoped ps (length s) -> wf_store s -> enumerate pick ps s <> SFuel.
+  Proof using leq_good gt_good lt_good.
+    intros pick ps s Hg _ Hwf. apply (search_terminates pick None I); assumption.
+  Qed.
+
+  (* ---- C01 *)
+  Theorem solutions_satisfy : forall pick m ps s sols best,
+    Forall good ps -> scoped ps (length s) -> wf_store s -> mode_vok m ->
+    search pick m ps s = SOk sols best ->
+    forall t, In t sols -> all_fixed t = true /\ sub_store t s /\ sol ps s (asg_of t).
+  Proof using leq_good gt_good lt_good.
+    intros pick m ps s sols best Hg Hsc Hwf Hm H. eapply (search_sound pick m Hm); eassumption.
+  Qed.
+
+  Theorem solve_result_satisfies : forall pick ps s t,
+    Forall good ps -> scoped ps (length s) -> wf_store s ->
+    solve pick ps s = Some (Some t) -> all_fixed t = true /\ sub_store t s /\ sol ps s (asg_of t).
+  Proof using leq_good gt_good lt_good.
+    intros pick ps s t Hg Hsc Hwf H. unfold solve in H.
+    destruct (enumerate pick ps s) as [|sols best] eqn:E; [discriminate|]. injection H as H.
+    destruct (enumerate_exact _ _ _ _ _ Hg Hsc Hwf E) as [_ [Hs _]]. apply Hs.
+    destruct sols; [discriminate|]. injection H as ->. left. reflexivity.
+  Qed.
+
+  Lemma minimize_sols : forall pick obj ps s r, minimize pick obj ps s = Some r ->
+    exists sols best, search pick (Some obj) ps s = SOk sols best /\ r = last (map Some sols) None.
+  Proof.
+    intros pick obj ps s r H. unfold minimize in H.
+    destruct (search pick (Some obj) ps s) as [|sols best]; [discriminate|].
+    injection H as <-. exists sols, best. auto.
+  Qed.
+
+  Lemma minimize_sat1 : forall pick obj ps s t,
+    Forall good ps -> scoped ps (length s) -> wf_store s -> view_ok obj ->
+    minimize pick obj ps s = Some (Some t) ->
+    all_fixed t = true /\ sub_store t s /\ sol ps s (asg_of t).
+  Proof using leq_good gt_good lt_good.
+    intros pick obj ps s t Hg Hsc Hwf Hv H.
+    destruct (minimize_sols _ _ _ _ _ H) as [sols [best [E El]]].
+    eapply (solutions_satisfy pick (Some obj)); try eassumption. apply last_some_In. symmetry. exact El.
+  Qed.
+
+  Theorem minimize_result_satisfies : forall pick obj ps s t,
+    Forall good ps -> scoped ps (length s) -> wf_store s -> view_ok obj ->
+    (minimize pick obj ps s = Some (Some t) \/ maximize pick obj ps s = Some (Some t)) ->
+    all_fixed t = true /\ sub_store t s /\ sol ps s (asg_of t).
+  Proof using leq_good gt_good lt_good.
+    intros pick obj ps s t Hg Hsc Hwf Hv [H|H].
+    - eapply minimize_sat1; eassumption.
+    - unfold maximize in H. eapply (minimize_sat1 pick (VOpp obj)); try eassumption.
+  Qed.
+
+  (* ---- C02 *)
+  Theorem solve_total : forall pick ps s,
+    Forall good ps -> scoped ps (length s) -> wf_store s -> solve pick ps s <> None.
+  Proof using leq_good gt_good lt_good.
+    intros pick ps s Hg Hsc Hwf. unfold solve.
+    pose proof (enumerate_terminates pick ps s Hg Hsc Hwf) as Ht.
+    destruct (enumerate pick ps s); [congruence|discriminate].
+  Qed.
+
+  Theorem solve_nosol_sound : forall pick ps s,
+    Forall good ps -> scoped ps (length s) -> wf_store s ->
+    solve pick ps s = Some None -> forall a, ~ sol ps s a.
+  Proof using leq_good gt_good lt_good.
+    intros pick ps s Hg Hsc Hwf H a Ha. unfold solve in H.
+    destruct (enumerate pick ps s) as [|sols best] eqn:E; [discriminate|].
+    destruct (enumerate_exact _ _ _ _ _ Hg Hsc Hwf E) as [_ [_ Hc]].
+    destruct (Hc a Ha) as [t [Ht _]]. destruct sols; [destruct Ht|discriminate].
+  Qed.
+
+  Theorem solve_complete : forall pick ps s a,
+    Forall good ps -> scoped ps (length s) -> wf_store s -> sol ps s a ->
+    exists t, solve pick ps s = Some (Some t).
+  Proof using leq_good gt_good lt_good.
+    intros pick ps s a Hg Hsc Hwf Ha.
+    pose proof (solve_total pick ps s Hg Hsc Hwf) as Ht.
+    destruct (solve pick ps s) as [[t|]|] eqn:E; [exists t; reflexivity| |congruence].
+    destruct (solve_nosol_sound pick ps s Hg Hsc Hwf E a Ha).
+  Qed.
+
+  (* ---- C04 *)
+  Theorem iterate_strictly_improves : forall pick obj ps s sols best,
+    Forall good ps -> scoped ps (length s) -> wf_store s -> view_ok obj ->
+    (forall x, uvar obj = Some x -> (x < length s)%nat) ->
+    search pick (Some obj) ps s = SOk sols best ->
+    strictly_decreasing (objs obj sols) /\
+    (forall t, In t sols -> sol ps s (asg_of t)) /\
+    (forall a, sol ps s a -> exists t, last (map Some sols) None = Some t /\ vsem obj (asg_of t) <= vsem obj a).
+  Proof using leq_good gt_good lt_good.
+    intros pick obj ps s sols best Hg Hsc Hwf Hv Hvs H.
+    assert (Hm : mode_vok (Some obj)) by exact Hv.
+    destruct (search_dec pick (Some obj) Hm obj ps s sols best eq_refl Hg Hwf Hvs H) as [D E].
+    pose proof (search_sound pick (Some obj) Hm ps s sols best Hg Hsc Hwf H) as Hs.
+    split; [apply dec_from_strict; exact D|]. split; [intros t Ht; apply (Hs t Ht)|].
+    intros a Ha. unfold objs in *. rewrite last_best_last in E.
+    destruct (search_complete pick (Some obj) Hm ps s sols best Hg Hsc Hwf Hvs H a Ha) as [[t' [Ht' Hi]]|Hd].
+    - destruct (Hs t' Ht') as [Hf' [Hsub' _]].
+      assert (Ev : vsem obj a = vsem obj (asg_of t')).
+      { apply vsem_ext. intros x Hx. apply inst_fixed_eq; [exact Hf'|exact Hi|].
+        rewrite (sub_store_length _ _ Hsub'). apply Hvs. exact Hx. }
+      destruct (dec_last_le _ None (vsem obj (asg_of t')) D) as [b' [Eb Hb]].
+      { apply in_map_iff. exists t'. auto. }
+      rewrite last_best_last in Eb.
+      destruct (last (map Some sols) None) as [t|]; [|discriminate]. cbn in Eb. injection Eb as <-.
+      exists t. split; [reflexivity|lia].
+    - unfold dominated in Hd. subst best.
+      destruct (last (map Some sols) None) as [t|]; [|destruct Hd]. cbn in Hd.
+      exists t. split; [reflexivity|exact Hd].
+  Qed.
+
+  Theorem minimize_optimal : forall pick obj ps s t,
+    Forall good ps -> scoped ps (length s) -> wf_store s -> view_ok obj ->
+    (forall x, uvar obj = Some x -> (x < length s)%nat) ->
+    minimize pick obj ps s = Some (Some t) ->
+    sol ps s (asg_of t) /\ forall a, sol ps s a -> vsem obj (asg_of t) <= vsem obj a.
+  Proof using leq_good gt_good lt_good.
+    intros pick obj ps s t Hg Hsc Hwf Hv Hvs H.
+    destruct (minimize_sols _ _ _ _ _ H) as [sols [best [E El]]].
+    destruct (iterate_strictly_improves _ _ _ _ _ _ Hg Hsc Hwf Hv Hvs E) as [_ [Hs Ho]].
+    split; [apply Hs; apply last_some_In; symmetry; exact El|].
+    intros a Ha. destruct (Ho a Ha) as [t' [Et Hle]]. rewrite <- El in Et. injection Et as <-. exact Hle.
+  Qed.
+
+  Theorem maximize_optimal : forall pick obj ps s t,
+    Forall good ps -> scoped ps (length s) -> wf_store s -> view_ok obj ->
+    (forall x, uvar obj = Some x -> (x < length s)%nat) ->
+    maximize pick obj ps s = Some (Some t) ->
+    sol ps s (asg_of t) /\ forall a, sol ps s a -> vsem obj a <= vsem obj (asg_of t).
+  Proof using leq_good gt_good lt_good.
+    intros pick obj ps s t Hg Hsc Hwf Hv Hvs H. unfold maximize in H.
+    destruct (minimize_optimal pick (VOpp obj) ps s t Hg Hsc Hwf Hv Hvs H) as [A B].
+    split; [exact A|]. intros a Ha. specialize (B a Ha). cbn [vsem] in B. lia.
+  Qed.
+
+  Theorem minimize_ok_iff_sat : forall pick obj ps s,
+    Forall good ps -> scoped ps (length s) -> wf_store s -> view_ok obj ->
+    (minimize pick obj ps s = Some None <-> forall a, ~ sol ps s a) /\ minimize pick obj ps s <> None.
+  Proof using leq_good gt_good lt_good.
+    intros pick obj ps s Hg Hsc Hwf Hv.
+    assert (Hm : mode_vok (Some obj)) by exact Hv.
+    pose proof (search_terminates pick (Some obj) Hm ps s Hg Hwf) as Ht.
+    unfold minimize. destruct (search pick (Some obj) ps s) as [|sols best] eqn:E; [congruence|].
+    split; [|discriminate]. split.
+    - intros H. injection H as H. apply last_none_nil in H. subst sols.
+      eapply (search_none pick (Some obj) Hm); eassumption.
+    - intros Hno. destruct sols as [|t0 r]; [reflexivity|]. exfalso.
+      destruct (search_sound pick (Some obj) Hm ps s _ best Hg Hsc Hwf E t0 (or_introl eq_refl)) as [_ [_ Hs]].
+      exact (Hno _ Hs).
+  Qed.
+
+  (* ---- C14 *)
+  Lemma enum_incl : forall pick1 pick2 ps1 ps2 s l1 b1 l2 b2,
+    Forall good ps1 -> scoped ps1 (length s) -> Forall good ps2 -> scoped ps2 (length s) -> wf_store s ->
+    (forall a, sol ps1 s a -> sol ps2 s a) ->
+    enumerate pick1 ps1 s = SOk l1 b1 -> enumerate pick2 ps2 s = SOk l2 b2 ->
+    forall t, In t l1 -> In t l2.
+  Proof using leq_good gt_good lt_good.
+    intros pick1 pick2 ps1 ps2 s l1 b1 l2 b2 Hg1 Hsc1 Hg2 Hsc2 Hwf Himp E1 E2 t Ht.
+    destruct (enumerate_exact _ _ _ _ _ Hg1 Hsc1 Hwf E1) as [_ [Hs _]].
+    destruct (Hs t Ht) as [A [B C]].
+    eapply enum_unique; [exact Hg2|exact Hsc2|exact Hwf|exact E2|exact A|apply (sub_store_length _ _ B)|apply Himp; exact C].
+  Qed.
+
+  Lemma sol_perm : forall ps1 ps2 s a, Permutation ps1 ps2 -> sol ps1 s a -> sol ps2 s a.
+  Proof.
+    intros ps1 ps2 s a Hp [Hi Hs]. split; [exact Hi|]. intros p Hin. apply Hs.
+    eapply Permutation_in; [apply Permutation_sym; exact Hp|exact Hin].
+  Qed.
+
+  Lemma Forall_perm : forall (P : prop -> Prop) ps1 ps2, Permutation ps1 ps2 -> Forall P ps1 -> Forall P ps2.
+  Proof.
+    intros P ps1 ps2 Hp H. apply Forall_forall. intros p Hin. eapply Forall_forall; [exact H|].
+    eapply Permutation_in; [apply Permutation_sym; exact Hp|exact Hin].
+  Qed.
+
+  Theorem order_independent : forall pick1 pick2 ps1 ps2 s l1 b1 l2 b2,
+    Forall good ps1 -> scoped ps1 (length s) -> wf_store s -> Permutation ps1 ps2 ->
+    enumerate pick1 ps1 s = SOk l1 b1 -> enumerate pick2 ps2 s = SOk l2 b2 ->
+    forall t, In t l1 <-> In t l2.
+  Proof using leq_good gt_good lt_good.
+    intros pick1 pick2 ps1 ps2 s l1 b1 l2 b2 Hg Hsc Hwf Hp E1 E2 t.
+    pose proof (Forall_perm _ _ _ Hp Hg) as Hg2. pose proof (Forall_perm _ _ _ Hp Hsc) as Hsc2.
+    split.
+    - apply (enum_incl pick1 pick2 ps1 ps2 s l1 b1 l2 b2 Hg Hsc Hg2 Hsc2 Hwf); [|exact E1|exact E2].
+      intros a. apply sol_perm. exact Hp.
+    - apply (enum_incl pick2 pick1 ps2 ps1 s l2 b2 l1 b1 Hg2 Hsc2 Hg Hsc Hwf); [|exact E2|exact E1].
+      intros a. apply sol_perm. apply Permutation_sym. exact Hp.
+  Qed.
+
+  Theorem verdict_independent : forall pick1 pick2 ps1 ps2 s,
+    Forall good ps1 -> scoped ps1 (length s) -> wf_store s -> Permutation ps1 ps2 ->
+    (solve pick1 ps1 s = Some None <-> solve pick2 ps2 s = Some None).
+  Proof using leq_good gt_good lt_good.
+    intros pick1 pick2 ps1 ps2 s Hg Hsc Hwf Hp.
+    pose proof (Forall_perm _ _ _ Hp Hg) as Hg2. pose proof (Forall_perm _ _ _ Hp Hsc) as Hsc2.
+    assert (Hhalf : forall pk1 pk2 q1 q2, Forall good q1 -> scoped q1 (length s) -> Forall good q2 ->
+              scoped q2 (length s) -> Permutation q1 q2 ->
+              solve pk1 q1 s = Some None -> solve pk2 q2 s = Some None).
+    { intros pk1 pk2 q1 q2 G1 S1 G2 S2 P H.
+      pose proof (solve_nosol_sound pk1 q1 s G1 S1 Hwf H) as Hno.
+      pose proof (solve_total pk2 q2 s G2 S2 Hwf) as Ht.
+      destruct (solve pk2 q2 s) as [[t|]|] eqn:E; [|reflexivity|congruence]. exfalso.
+      destruct (solve_result_satisfies pk2 q2 s t G2 S2 Hwf E) as [_ [_ Hs]].
+      apply (Hno (asg_of t)). eapply sol_perm; [apply Permutation_sym; exact P|exact Hs]. }
+    split; [apply Hhalf; assumption|apply Hhalf; try assumption; apply Permutation_sym; exact Hp].
+  Qed.
+
+  Theorem optimum_independent : forall pick1 pick2 ps1 ps2 s obj t1 t2,
+    Forall good ps1 -> scoped ps1 (length s) -> wf_store s -> view_ok obj -> Permutation ps1 ps2 ->
+    minimize pick1 obj ps1 s = Some (Some t1) -> minimize pick2 obj ps2 s = Some (Some t2) ->
+    vsem obj (asg_of t1) = vsem obj (asg_of t2).
+  Proof using leq_good gt_good lt_good.
+    intros pick1 pick2 ps1 ps2 s obj t1 t2 Hg Hsc Hwf Hv Hp E1 E2.
+    pose proof (Forall_perm _ _ _ Hp Hg) as Hg2. pose proof (Forall_perm _ _ _ Hp Hsc) as Hsc2.
+    assert (Hdec : view_scoped obj (length s) \/ exists x, uvar obj = Some x /\ (length s <= x)%nat).
+    { unfold view_scoped. destruct (uvar obj) as [x|]; [|left; intros x; discriminate].
+      destruct (lt_dec x (length s)) as [Hx|Hx].
+      - left. intros y Ey. injection Ey as <-. exact Hx.
+      - right. exists x. split; [reflexivity|lia]. }
+    destruct Hdec as [Hvs|[x [Ex Hx]]].
+    - destruct (minimize_optimal _ _ _ _ _ Hg Hsc Hwf Hv Hvs E1) as [S1 O1].
+      destruct (minimize_optimal _ _ _ _ _ Hg2 Hsc2 Hwf Hv Hvs E2) as [S2 O2].
+      pose proof (O1 _ (sol_perm _ _ _ _ (Permutation_sym Hp) S2)).
+      pose proof (O2 _ (sol_perm _ _ _ _ Hp S1)). lia.
+    - destruct (minimize_sat1 _ _ _ _ _ Hg Hsc Hwf Hv E1) as [_ [B1 _]].
+      destruct (minimize_sat1 _ _ _ _ _ Hg2 Hsc2 Hwf Hv E2) as [_ [B2 _]].
+      apply vsem_ext. intros y Ey. rewrite Ex in Ey. injection Ey as <-. unfold asg_of.
+      rewrite !sget_overflow; [reflexivity| |].
+      + rewrite (sub_store_length _ _ B2). exact Hx.
+      + rewrite (sub_store_length _ _ B1). exact Hx.
+  Qed.
+
+  Theorem implied_constraint_neutral : forall pick1 pick2 ps p s l1 b1 l2 b2,
+    Forall good (p :: ps) -> scoped (p :: ps) (length s) -> wf_store s ->
+    (forall a, sol ps s a -> sat p a = true) ->
+    enumerate pick1 ps s = SOk l1 b1 -> enumerate pick2 (ps ++ [p]) s = SOk l2 b2 ->
+    forall t, In t l1 <-> In t l2.
+  Proof using leq_good gt_good lt_good.
+    intros pick1 pick2 ps p s l1 b1 l2 b2 Hg Hsc Hwf Himp E1 E2 t.
+    assert (Hperm : Permutation (p :: ps) (ps ++ [p])) by (apply Permutation_cons_append).
+    pose proof (Forall_perm _ _ _ Hperm Hg) as Hg2. pose proof (Forall_perm _ _ _ Hperm Hsc) as Hsc2.
+    inversion Hg as [|? ? _ Hg1]; subst. inversion Hsc as [|? ? _ Hsc1]; subst.
+    split.
+    - apply (enum_incl pick1 pick2 ps (ps ++ [p]) s l1 b1 l2 b2 Hg1 Hsc1 Hg2 Hsc2 Hwf); [|exact E1|exact E2].
+      intros a Ha. split; [apply Ha|]. intros q Hq.
+      apply in_app_or in Hq. destruct Hq as [Hq|[<-|[]]]; [apply Ha; exact Hq|apply Himp; exact Ha].
+    - apply (enum_incl pick2 pick1 (ps ++ [p]) ps s l2 b2 l1 b1 Hg2 Hsc2 Hg1 Hsc1 Hwf); [|exact E2|exact E1].
+      intros a [Hi Hs]. split; [exact Hi|]. intros q Hq.
+      apply Hs. apply in_or_app. left. exact Hq.
+  Qed.
+
+  Theorem solution_set_is_semantic : forall pick ps s sols best a,
+    Forall good ps -> scoped ps (length s) -> wf_store s ->
+    enumerate pick ps s = SOk sols best ->
+    (sol ps s a <-> exists t, In t sols /\ inst a t).
+  Proof using leq_good gt_good lt_good.
+    intros pick ps s sols best a Hg Hsc Hwf E.
+    destruct (enumerate_exact _ _ _ _ _ Hg Hsc Hwf E) as [_ [Hs Hc]]. split; [apply Hc|].
+    intros [t [Ht Hi]]. destruct (Hs t Ht) as [Hf [Hsub [_ Hsat]]].
+    split; [eapply inst_sub; eassumption|]. intros p Hp. rewrite <- (Hsat p Hp).
+    assert (Hgp : good p) by (eapply Forall_forall; eassumption).
+    destruct Hgp as [_ [_ [_ [_ Hfr]]]]. apply Hfr. intros v Hv.
+    apply inst_fixed_eq; [exact Hf|exact Hi|]. rewrite (sub_store_length _ _ Hsub).
+    eapply Forall_forall in Hsc; [|exact Hp]. apply Hsc. exact Hv.
+  Qed.
+End Search.
